@@ -32,7 +32,11 @@ namespace {
 struct PRw : public photon::rwlock { int64_t st() { return state; } };
 struct PQ : public photon::qrwlock { int64_t st() { return lock_state.load(); } };
 
+struct Ev { long seq; int tid; char what; long kind; long st; };
+static Ev g_ring[1 << 18];
 struct Shared {
+    Ev* ring = g_ring; std::atomic<long> evseq{0};
+    void ev(int tid, char what, long kind, long st) { long q = evseq.fetch_add(1); ring[q & ((1 << 18) - 1)] = Ev{q, tid, what, kind, st}; }
     std::atomic<int> readers{0}, writers{0};
     std::atomic<long> sections{0}, failed{0}, overlapped_readers{0};
     std::mutex mu; std::string first_violation;
@@ -69,6 +73,13 @@ struct Locks {
         switch (impl) { case 0: m0.unlock(); break; case 1: m1.unlock(); break; case 2: sp.unlock(); break; case 3: tk.unlock(); break; default: qs.unlock(); }
 #endif
     }
+    long word() {
+#if STRESS_PROP == 6
+        return impl == 1 ? q.st() : rw.st();
+#else
+        return 0;
+#endif
+    }
     bool idle() {
 #if STRESS_PROP == 6
         return (impl == 1 ? q.st() : rw.st()) == 0;
@@ -90,7 +101,9 @@ void worker(Shared& S, Locks& L, const std::vector<std::vector<long>>& prog, lon
 #else
             bool writer = true;
 #endif
-            if (L.acquire(kind, tmo) != 0) { S.failed++; if (body == 1) photon::thread_yield(); continue; }
+            S.ev(tid, 'a', kind * 1000 + (tmo < 0 ? 999 : tmo), L.word());
+            if (L.acquire(kind, tmo) != 0) { S.ev(tid, 'f', kind, L.word()); S.failed++; if (body == 1) photon::thread_yield(); continue; }
+            S.ev(tid, 'g', kind, L.word());
             if (writer) {
                 int w = S.writers.fetch_add(1), rd = S.readers.load();
                 if (w != 0 || rd != 0) S.violation("thread " + std::to_string(tid) + " holds the lock exclusively while " + std::to_string(w) + " other exclusive holder(s) and " + std::to_string(rd) + " shared holder(s) are inside");
@@ -103,7 +116,9 @@ void worker(Shared& S, Locks& L, const std::vector<std::vector<long>>& prog, lon
             if (writer) { if (S.readers.load() != 0 || S.writers.load() != 1) S.violation("exclusivity broken while thread " + std::to_string(tid) + " was inside"); S.writers.fetch_sub(1); }
             else { if (S.writers.load() != 0) S.violation("an exclusive holder entered while thread " + std::to_string(tid) + " held the lock shared"); S.readers.fetch_sub(1); }
             S.sections++;
+            S.ev(tid, 'u', kind, L.word());
             L.release();
+            S.ev(tid, 'r', kind, L.word());
         }
 }
 
@@ -116,6 +131,7 @@ Outcome run_case(const Case& c) {
     std::thread watchdog([&]() {
         for (int i = 0; i < 6000 && !case_done; i++) std::this_thread::sleep_for(std::chrono::milliseconds(10));
         if (case_done) return;
+        if (getenv("STRESS_DUMP")) { long e = S.evseq.load(); long lastg = 0; for (long q = std::max<long>(0, e - (1 << 18) + 8); q < e; q++) if (S.ring[q & ((1 << 18) - 1)].what == 'r') lastg = q; for (long q = std::max<long>(0, lastg - 120); q < std::min(e, lastg + 60); q++) { auto& x = S.ring[q & ((1 << 18) - 1)]; fprintf(stderr, "[ev] %ld t%d %c kind=%ld word=%ld\n", x.seq, x.tid, x.what, x.kind, x.st); } }
         vf::finish_now(Outcome::violation("threads still blocked after 60 s (" + std::to_string(S.running.load()) + " of them; " + std::to_string(S.sections.load()) + " sections completed): lost wake-up or deadlock" +
                                           (S.first_violation.empty() ? "" : "; earlier: " + S.first_violation)));
     });
